@@ -1,11 +1,12 @@
 import Dcg.Proofs.Imports
+import Dcg.Proofs.Cover
 /-
 C02 — emitted modules execute: every name is bound before it is needed.
 Only property theorems live here; helper lemmas are in Dcg/Proofs/Imports.lean (and
 Dcg/Proofs/Cover.lean for `imports_cover_hint`).
 -/
 namespace Dcg.Props.C02
-open Dcg.Model.Types Dcg.Model.Imports Dcg.Proofs.Imports
+open Dcg.Model.Types Dcg.Model.Imports Dcg.Model.HintExpr Dcg.Proofs.Imports Dcg.Proofs.Cover
 
 /-! ### The reference-counted import set (`imports.py`) -/
 
@@ -71,5 +72,76 @@ theorem prune_removes_only_unused (code : Str) (s s' : State) (h : prune code s 
 example : (prune "x: Optional[int]".toList (([IMPORT_OPTIONAL, IMPORT_UNION]).foldl append1 {})).map
     (fun s => (present s (keyOf IMPORT_OPTIONAL), present s (keyOf IMPORT_UNION))) = some (true, false) := by
   decide
+
+/-! ### Per-type import derivation (`DataType.imports` / `all_imports` against `type_hint`) -/
+
+/-- FULL STATEMENT (kept visible; FALSE of the code, see the two refutations below): for every
+type tree and option vector, every `typing` / `collections.abc` name written into the rendered hint
+is among the imports computed for the tree. -/
+def ImportsCoverHint : Prop :=
+  ∀ (o : Opts) (t : DT), ∀ n ∈ namesOf (hintE o t).1, n ∈ typingNames →
+    n ∈ impNames (allImports o true t)
+
+/-- PARTIAL, by structural induction on the tree, guard by guard (`node_cover`): it holds when
+(`coverOK`, decidable) no name taken from the input is itself one of the nine typing names, no
+node is a set under generic-container + standard-collections, dict keys are leaves; and the
+`is_optional` flags the code's string rendering leaves are those of the structural rendering
+(`flagsAgree`, decidable; it is what `typeHint_eq_print` of C13 establishes). -/
+theorem imports_cover_hint_partial (o : Opts) (t : DT) (hc : coverOK o t = true)
+    (hf : flagsAgree o t = true) :
+    ∀ n ∈ namesOf (hintE o t).1, n ∈ typingNames → n ∈ impNames (allImports o true t) := by
+  intro n hn ht
+  have := cover_tree o t hc n hn ht
+  rw [(imports_congr o t hf true).2] at this
+  exact this
+
+/-- non-vacuity: `Optional[Dict[str, List[Union[int, Literal['a']]]]]`, all eight spellings -/
+example : ∀ o : Opts,
+    let t : DT := .mk { isOptional := true, isDict := true } (some (.mk { ty := sStr } none []))
+      [.mk { isList := true } none [.mk { ty := ['i', 'n', 't'] } none [], .mk { literals := [['\'', 'a', '\'']] } none []]]
+    coverOK o t = true ∧ flagsAgree o t = true := by
+  intro o; obtain ⟨u, s, g⟩ := o
+  cases u <;> cases s <;> cases g <;> decide
+
+/-- REFUTATION 1 (known finding C02-F2): generic containers + standard collections, a set: the hint
+says `FrozenSet[str]`, the import set has `collections.abc.Set`. -/
+theorem frozenset_not_imported :
+    let o : Opts := { stdColl := true, genericCont := true }
+    let t : DT := .mk { isSet := true } none [.mk { ty := sStr } none []]
+    (typeHint o t).1 = sFrozenSet ++ ['['] ++ sStr ++ [']'] ∧
+    sFrozenSet ∈ namesOf (hintE o t).1 ∧ sFrozenSet ∉ impNames (allImports o true t) := by
+  decide
+
+/-- REFUTATION 2: `DataType.imports` asks the dict key only for its *own* imports
+(`self.dict_key.imports`, not `all_imports`): `Dict[List[int], str]` has no import of `List`. -/
+theorem nested_dict_key_not_imported :
+    let o : Opts := {}
+    let t : DT := .mk { isDict := true } (some (.mk {} none [.mk { isList := true } none [.mk { ty := ['i', 'n', 't'] } none []]]))
+      [.mk { ty := sStr } none []]
+    sList ∈ namesOf (hintE o t).1 ∧ sList ∉ impNames (allImports o true t) := by
+  decide
+
+theorem imports_cover_hint_full_false : ¬ ImportsCoverHint := by
+  intro h
+  have := h { stdColl := true, genericCont := true } (.mk { isSet := true } none [.mk { ty := sStr } none []])
+    sFrozenSet (by decide) (by decide)
+  exact absurd this (by decide)
+
+/-! ### The module-level claim
+
+`module_well_bound` (FULL, not proved): for every supported input and option vector, in every
+emitted module (a) each eager use — base class, decorator, subscripted generic base, alias
+right-hand side, default, `Field(...)` argument — is bound by an earlier statement; (b) each name
+of an annotation is bound by some statement of the module or is a builtin; (c) no class or member
+re-binds a name the module needs; (d) every model's forward references resolve.
+
+What this file proves of it: the import *set* mechanics (`counter_pos_present`,
+`counter_invariant`), that pruning only ever drops names that do not occur in the text
+(`prune_sound`), and that the per-type derivation covers what `type_hint` writes
+(`imports_cover_hint_partial`).  Not modelled, hence only tested end-to-end on every run
+(campaign `e2e`: import the module, resolve forward references, static scope analysis): the
+aggregation over models and fields (`Field`, `Annotated`, base-class and `DEFAULT_IMPORTS`), the
+ordering of definitions (C11), `__alias_shadowed_imports` / `__change_field_name`, the
+forward-reference footer.  Refuted on the pinned tree by the known findings C02-F1 … F4. -/
 
 end Dcg.Props.C02
